@@ -30,10 +30,10 @@ import seqcheck
 
 SPEC = {
     "prop": "C14",
-    "lean_targets": ["InfernoVerif.Props.C14", "InfernoVerif.Props.C13Glue", "InfernoVerif.Props.C13GlueProg", "InfernoVerif.Props.C14GlueProg", "InfernoVerif.Gen.Dispatch"],
+    "lean_targets": ["InfernoVerif.Props.C14", "InfernoVerif.Props.C13Glue", "InfernoVerif.Props.C13GlueProg", "InfernoVerif.Props.C14GlueProg", "InfernoVerif.Props.C14Run", "InfernoVerif.Gen.Dispatch"],
     "translate": ["Infra", "RingProg", "RecordProg", "ConfigProg"],
     "driver_targets": ["InfernoVerif.Model.Config", "InfernoVerif.Drv.Proto", "InfernoVerif.Gen.Dispatch"],
-    "prop_files": ["InfernoVerif/Props/C14.lean", "InfernoVerif/Props/C13Glue.lean", "InfernoVerif/Props/C13GlueProg.lean", "InfernoVerif/Props/C14GlueProg.lean"],
+    "prop_files": ["InfernoVerif/Props/C14.lean", "InfernoVerif/Props/C13Glue.lean", "InfernoVerif/Props/C13GlueProg.lean", "InfernoVerif/Props/C14GlueProg.lean", "InfernoVerif/Props/C14Run.lean"],
     "lemma_files": ["InfernoVerif/Lemmas/Config.lean", "InfernoVerif/Lemmas/Record.lean"],
     "model_files": ["InfernoVerif/Model/Config.lean", "InfernoVerif/Model/Record.lean",
                     "InfernoVerif/Model/Shaped.lean", "InfernoVerif/Model/Ring.lean",
